@@ -1,5 +1,4 @@
-import RV.C03.NTLine
-import RV.C03.CodecLemmas
+import RV.C03.ChainLemmas
 /-
   C03 — a whole N-Triples line written by `_nt_row` parses back to the same triple.
 -/
@@ -45,59 +44,6 @@ theorem spanP_ok (p : Char → Bool) : ∀ (l : Str) (c : Char) (rest : Str), l.
     simp only [List.all_cons, Bool.and_eq_true] at h
     simp only [List.cons_append, spanP, h.1, if_true, ih c rest h.2 hc]
 
-theorem decShortRest_echar (q e d : Char) (E : Str) (h : echar e = some d) (hq : bs ≠ q) :
-    decShortRest q (bs :: e :: E) = (match decShortRest q E with | some (a, b) => some (d :: a, b) | none => none) := by
-  conv => lhs; rw [decShortRest.eq_def]
-  simp only [hq, if_false, if_true]
-  split
-  · next d' r' h' =>
-    rw [unescape_echar E h] at h'
-    simp at h'; obtain ⟨rfl, rfl⟩ := h'; rfl
-  · next h' => rw [unescape_echar E h] at h'; simp at h'
-
-theorem decShortRest_plain (q c : Char) (E : Str) (h1 : c ≠ q) (h2 : c ≠ bs) (h3 : c ≠ lf) (h4 : c ≠ cr) :
-    decShortRest q (c :: E) = (match decShortRest q E with | some (a, b) => some (c :: a, b) | none => none) := by
-  conv => lhs; rw [decShortRest.eq_def]
-  simp only [h1, h2, h3, h4, if_false, false_or]
-  rfl
-
-theorem decShortRest_close (q : Char) (E : Str) : decShortRest q (q :: E) = some ([], E) := by
-  rw [decShortRest.eq_def]; simp
-
-theorem decShortRest_ok (s rest : Str) : decShortRest dq (s.flatMap ntEsc ++ dq :: rest) = some (s, rest) := by
-  induction s with
-  | nil => simp [decShortRest_close]
-  | cons c t ih =>
-    rw [List.flatMap_cons, List.append_assoc]
-    by_cases h1 : c = bs
-    · subst h1
-      rw [show ntEsc bs = [bs, bs] from by decide]
-      simp only [List.cons_append, List.nil_append]
-      rw [decShortRest_echar dq bs bs _ (by decide) (by decide), ih]
-    by_cases h2 : c = lf
-    · subst h2
-      rw [show ntEsc lf = [bs, 'n'] from by decide]
-      simp only [List.cons_append, List.nil_append]
-      rw [decShortRest_echar dq 'n' lf _ (by decide) (by decide), ih]
-    by_cases h3 : c = dq
-    · subst h3
-      rw [show ntEsc dq = [bs, dq] from by decide]
-      simp only [List.cons_append, List.nil_append]
-      rw [decShortRest_echar dq dq dq _ (by decide) (by decide), ih]
-    by_cases h4 : c = cr
-    · subst h4
-      rw [show ntEsc cr = [bs, 'r'] from by decide]
-      simp only [List.cons_append, List.nil_append]
-      rw [decShortRest_echar dq 'r' cr _ (by decide) (by decide), ih]
-    rw [ntEsc_other h1 h2 h3 h4]
-    simp only [List.cons_append, List.nil_append]
-    rw [decShortRest_plain dq c _ h3 h1 h2 h4, ih]
-
-theorem ntQuoteEncode_eq (s : Str) : ntQuoteEncode s = dq :: (s.flatMap ntEsc ++ [dq]) := by
-  unfold ntQuoteEncode
-  rw [ntChain_fused]
-  rfl
-
 theorem scanNode_ok (n : NTerm) (rest : Str) (h : NodeWf n) :
     scanNode (ntTerm n ++ ' ' :: rest) = some (n, ' ' :: rest) := by
   match n, h with
@@ -120,13 +66,13 @@ theorem scanNode_ok (n : NTerm) (rest : Str) (h : NodeWf n) :
 
 /-- the text of a literal: `"` escaped-content `"` then the suffix -/
 theorem lit_text (lex suffix : Str) :
-    ntQuoteEncode lex ++ suffix = '"' :: (lex.flatMap ntEsc ++ dq :: suffix) := by
-  rw [ntQuoteEncode_eq]
+    ntQuoteEncode lex ++ suffix = '"' :: (applyChain Tables.ntChain lex ++ dq :: suffix) := by
+  unfold ntQuoteEncode
   simp only [List.cons_append, List.append_assoc, List.nil_append]
   rfl
 
 theorem scanObj_lit (lex rest : Str) :
-    scanObj ('"' :: (lex.flatMap ntEsc ++ dq :: rest)) =
+    scanObj ('"' :: (applyChain Tables.ntChain lex ++ dq :: rest)) =
       (match rest with
        | '^' :: '^' :: '<' :: r2 =>
          match scanIriBody r2 with
@@ -136,7 +82,7 @@ theorem scanObj_lit (lex rest : Str) :
          if langOk (spanP langChar r2).1 then some (.lit lex none (some (spanP langChar r2).1), (spanP langChar r2).2)
          else none
        | _ => some (.lit lex none none, rest)) := by
-  simp only [scanObj, decShortRest_ok]
+  simp only [scanObj, chain_rest_roundtrip ntChain_ok rest lex (by simp)]
   rfl
 
 theorem scanObj_ok (o : NTerm) (rest : Str) (h : ObjWf o) :
